@@ -67,7 +67,8 @@ type Tuple []Value
 
 // Union is a lazily forked choice between values with exclusive guards.
 type Union struct {
-	alts []UnionAlt
+	alts   []UnionAlt
+	chosen int // 1+index once concretised on this path (Union objects are path-local)
 }
 type UnionAlt struct {
 	g *Term
